@@ -10,4 +10,4 @@ CONSTANTS
 
 INVARIANT EmitDone
 CHECK_DEADLOCK FALSE
-INVARIANT InvC09
+INVARIANT InvAll
